@@ -22,17 +22,18 @@ Qed.
 Lemma nn_eqb_spec a b : nn_eqb a b = true <-> a = b.
 Proof. apply pair_eqb_spec; intros; apply Nat.eqb_eq. Qed.
 
-Lemma runobs_eqb_spec a b : runobs_eqb a b = true <-> a = b.
+Lemma runobs_eqb_spec a b :
+  runobs_eqb a b = true <-> (r_log a, r_left a, r_attrs a) = (r_log b, r_left b, r_attrs b).
 Proof.
-  destruct a as [l1 k1 a1 o1], b as [l2 k2 a2 o2]; unfold runobs_eqb; simpl. rewrite !andb_true_iff.
-  rewrite (list_eqb_spec lev_eqb lev_eqb_spec), Nat.eqb_eq, (list_eqb_spec nn_eqb nn_eqb_spec),
-    (list_eqb_spec outcome_eqb outcome_eqb_spec).
-  split; [intros [[[-> ->] ->] ->]; reflexivity | intros H; injection H; auto].
+  unfold runobs_eqb. rewrite !andb_true_iff.
+  rewrite (list_eqb_spec lev_eqb lev_eqb_spec), Nat.eqb_eq, (list_eqb_spec nn_eqb nn_eqb_spec).
+  split; [intros [[-> ->] ->]; reflexivity | intros H; injection H; auto].
 Qed.
-Lemma obs_eqb_spec a b : obs_eqb a b = true <-> a = b.
+Lemma obs_eqb_spec a b : obs_eqb a b = true <-> alpha a = alpha b.
 Proof.
-  destruct a as [f1 s1], b as [f2 s2]; unfold obs_eqb; simpl. rewrite andb_true_iff, !runobs_eqb_spec.
-  split; [intros [-> ->]; reflexivity | intros H; injection H; auto].
+  unfold obs_eqb, alpha. rewrite !andb_true_iff, !runobs_eqb_spec, eqb_true_iff.
+  split; [intros [[H1 H2] H3]; injection H1 as -> -> ->; injection H2 as -> -> ->; rewrite H3; reflexivity
+         | intros H; injection H; intros; repeat split; congruence].
 Qed.
 
 Lemma same_attrs_refl a : same_attrs a a = true.
